@@ -53,6 +53,7 @@ type natUplinkGeneric struct {
 	clientName     string
 	clientAddrPort netip.AddrPort
 	natConn        *net.UDPConn
+	natConnState   *atomic.Pointer[net.UDPConn]
 	natConnSendCh  <-chan *natQueuedPacket
 	natConnPacker  zerocopy.ClientPacker
 	natTimeout     time.Duration
@@ -376,6 +377,7 @@ func (s *UDPNATRelay) recvFromServerConnGeneric(ctx context.Context, lnc *udpRel
 						clientName:     clientInfo.Name,
 						clientAddrPort: clientAddrPort,
 						natConn:        natConn,
+						natConnState:   &entry.state,
 						natConnSendCh:  natConnSendCh,
 						natConnPacker:  clientSession.Packer,
 						natTimeout:     lnc.natTimeout,
@@ -473,6 +475,14 @@ func (s *UDPNATRelay) relayServerConnToNatConnGeneric(ctx context.Context, uplin
 				zap.Duration("natTimeout", uplink.natTimeout),
 				zap.Error(err),
 			)
+		}
+
+		// Stop may have just set an immediate deadline to end this session.
+		// Do not let an in-flight packet keep the session alive until the NAT timeout.
+		if uplink.natConnState.Load() != uplink.natConn {
+			if err := uplink.natConn.SetReadDeadline(conn.ALongTimeAgo); err != nil {
+				uplink.logger.Error("Failed to set read deadline on natConn", zap.Error(err))
+			}
 		}
 
 		s.putQueuedPacket(queuedPacket)
